@@ -1,6 +1,7 @@
 package main
 
 import (
+	"strconv"
 	"fmt"
 	"go/ast"
 	"go/constant"
@@ -525,6 +526,29 @@ func checkC15(w *World, r *Run) {
 				}
 			})
 		})
+		// and nothing reaches the inner store except through that pipe
+		allInstrs(fn, true, func(_ *ssa.Function, ins ssa.Instruction) {
+			c, ok := ins.(ssa.CallInstruction)
+			if !ok || !c.Common().IsInvoke() || c.Common().Method.Name() != "PutPart" {
+				return
+			}
+			if n, _ := fieldLoadName(c.Common().Value); n != "innerPartStore" {
+				return
+			}
+			args := c.Common().Args
+			body := args[len(args)-1]
+			piped := sliceContains(body, false, func(x ssa.Value) bool {
+				e, ok := x.(*ssa.Extract)
+				return ok && e.Index == 0 && isCallNamed(e.Tuple, "Pipe")
+			})
+			raw := sliceContains(body, true, func(x ssa.Value) bool {
+				p, ok := x.(*ssa.Parameter)
+				return ok && p.Parent() == fn && strings.HasSuffix(p.Type().String(), "io.Reader")
+			})
+			if !piped || raw {
+				good, why = false, "the inner PutPart at "+w.Pos(posOf(c))+" is fed from the caller's reader, not from the pipe that carries the header"
+			}
+		})
 		r.Check(good, ruleCodec, "compression: PutPart writes the header before every body, compressed or not", fn.Pos(), "Write(newHeader(algorithm)) dominates both Copy calls", why+": an uncompressed part stored without header whose first 32 bytes happen to form a valid header loses them (or fails to decode) on read")
 	}
 	for _, pair := range [][2]string{{"erasureCodingPartStore.shardHeader", "parseShardHeader"}, {"encodeFrameHeader", "parseFrameHeader"}} {
@@ -758,6 +782,57 @@ func checkC17(w *World, r *Run) {
 			}
 		}
 	}
+	// healing writes back what was read: the frame written for a healed shard restates the
+	// stripe's index and data length as authenticated frames gave them; the bytes returned
+	// are cut to that data length
+	ruleHeal := r.Rule("healed-frames-restate-the-stripe", "F9",
+		"every frame header the reader writes for a healed shard carries the stripe's dataBytes as read from the verified frames (not a length recomputed from padded shards) and the stripe index those frames were compared with; the bytes handed to the caller are cut to that dataBytes", 2)
+	fromParse := func(v ssa.Value, idx int) bool {
+		return sliceContains(v, false, func(x ssa.Value) bool {
+			e, ok := x.(*ssa.Extract)
+			return ok && e.Tuple == ssa.Value(parse) && e.Index == idx
+		})
+	}
+	recomputed := func(v ssa.Value) bool {
+		return sliceContains(v, false, func(x ssa.Value) bool {
+			if isBuiltinCall(x, "len") {
+				return true
+			}
+			bo, ok := x.(*ssa.BinOp)
+			return ok && (bo.Op == token.MUL || bo.Op == token.ADD || bo.Op == token.SUB || bo.Op == token.QUO)
+		})
+	}
+	nHeal := 0
+	allInstrs(lit, false, func(_ *ssa.Function, ins ssa.Instruction) {
+		c, ok := ins.(*ssa.Call)
+		if !ok || !isCallNamed(c, "encodeFrameHeader") || len(c.Call.Args) != 3 {
+			return
+		}
+		nHeal++
+		cons := "newPartReader: healed frame header restates dataBytes"
+		if nHeal > 1 {
+			cons += " #" + strconv.Itoa(nHeal)
+		}
+		r.Check(fromParse(c.Call.Args[1], 1) && !recomputed(c.Call.Args[1]), ruleHeal, cons, c.Pos(),
+			"dataBytes of the verified frames", "the healed shard's frame records a data length other than the one read from the verified frames: once that shard is the first readable one, later reads return padded or truncated bytes without any fault present")
+	})
+	if nHeal == 0 {
+		r.Bad(ruleHeal, "newPartReader: healed frame header restates dataBytes", fn.Pos(), "no encodeFrameHeader call in the healing reader")
+	}
+	cut := false
+	allInstrs(lit, false, func(_ *ssa.Function, ins ssa.Instruction) {
+		sl, ok := ins.(*ssa.Slice)
+		if !ok || sl.High == nil || !fromParse(sl.High, 1) || recomputed(sl.High) {
+			return
+		}
+		if forwardReaches(sl, func(u ssa.Instruction, via ssa.Value) bool {
+			cc, ok := u.(*ssa.Call)
+			return ok && isCallNamed(cc, "Write")
+		}) {
+			cut = true
+		}
+	})
+	r.Check(cut, ruleHeal, "newPartReader: returned stripe is cut to dataBytes", posOf(parse), "out[:dataBytes] reaches the pipe write", "the reconstructed stripe is written out without being cut to the recorded data length: the padding of the last stripe is returned as content")
 	r.Check(failOK, ruleQuorum, "too few shards fail the read", posOrFn(recon, fn), "available < dataShards → CloseWithError", "with more faults than parity shards the reader does not end with an error")
 	if of := w.SSAFunc(relErasure, "erasureCodingPartStore.openPartReaders"); of == nil {
 		r.Anchor(ruleQuorum, "erasureCodingPartStore.openPartReaders")
